@@ -134,7 +134,109 @@ def c17_3(ctx):
     return out
 
 
+def _verdict_cells(ctx):
+    """MerkleBlock.is_valid, Block.validate_merkle_root and Block.hash over free terms: the tree / the merkle-root function / hash256 are
+    stand-ins that record what they are given and hand back a fixed 32-byte string with 32 different bytes (so that byte order shows).
+    is_valid must rebuild the tree from (total, flag bits of `flags` LSB first, the hashes reversed) and be true exactly when the computed
+    root, reversed, equals the header's merkle root; validate_merkle_root likewise from the reversed transaction hashes; the block hash is
+    hash256(serialize()) reversed."""
+    from sa.cells import Evaluator, Obj, Raised, Undecided
+    out = []
+    ROOT = bytes(range(100, 132))
+    h1, h2 = bytes(range(32)), bytes(range(32, 64))
+    # -- MerkleBlock.is_valid
+    spec = "merkleblock:MerkleBlock.is_valid"
+    mod, fn = rl.get(ctx, spec)
+    seen = {}
+
+    def tree_init(o, total=None, *a, **k):
+        o.attrs["total"] = total
+
+    def populate(o, flag_bits, hashes):
+        seen["pop"] = ([1 if b else 0 for b in flag_bits], list(hashes), o.attrs.get("total"))
+        o.attrs["populated"] = True
+    hooks = {("MerkleTree", "__init__"): tree_init, ("MerkleTree", "populate_tree"): populate,
+             ("MerkleTree", "root"): lambda o: ROOT if o.attrs.get("populated") else None}
+    verdicts = {}
+    for label, hdr_root in (("equal", ROOT[::-1]), ("not reversed", ROOT), ("other", bytes(32))):
+        ctx.count("cells")
+        me = Obj("merkleblock", "MerkleBlock", {"header": Obj("block", "Block", {"merkle_root": hdr_root}), "total": 3, "hashes": [h1, h2], "flags": b"\x1d", "merkle_tree": None})
+        try:
+            verdicts[label] = Evaluator(ctx.repo, method_hooks=hooks).call(spec, [], self_obj=me)
+        except Raised as x:
+            verdicts[label] = "raises %s" % x.name
+    # the verdict belongs to the tree: whatever the relation between the number of hashes and the total, a proof whose rebuilt root matches is valid
+    # (a block with one transaction is proved by 1 hash of 1; a proof may carry as many hashes as there are leaves)
+    for total, nh in ((1, 1), (2, 2), (2, 1), (3, 3), (7, 7), (7, 1), (1000, 12)):
+        ctx.count("cells")
+        me = Obj("merkleblock", "MerkleBlock", {"header": Obj("block", "Block", {"merkle_root": ROOT[::-1]}), "total": total, "hashes": [bytes([i]) * 32 for i in range(nh)],
+                                                 "flags": b"\x01", "merkle_tree": None})
+        try:
+            r = Evaluator(ctx.repo, method_hooks=hooks).call(spec, [], self_obj=me)
+        except Raised as x:
+            r = "raises %s" % x.name
+        if r is not True:
+            out.append(ctx.bad(spec, "a proof with %d hash(es) for a block of %d transaction(s) whose rebuilt root matches the header is reported %s: the verdict is decided "
+                                     "before / without the tree" % (nh, total, "invalid" if r is False else r), fn, mod, key="verdict-by-tree"))
+            break
+    want_pop = ([1, 0, 1, 1, 1, 0, 0, 0], [h1[::-1], h2[::-1]], 3)
+    seen.pop("pop", None)
+    me = Obj("merkleblock", "MerkleBlock", {"header": Obj("block", "Block", {"merkle_root": ROOT[::-1]}), "total": 3, "hashes": [h1, h2], "flags": b"\x1d", "merkle_tree": None})
+    try:
+        Evaluator(ctx.repo, method_hooks=hooks).call(spec, [], self_obj=me)
+    except Raised:
+        pass
+    if verdicts != {"equal": True, "not reversed": False, "other": False}:
+        out.append(ctx.bad(spec, "verdict for a header root that is {the computed root reversed, the computed root as is, something else} = %s; expected true only for the first: the "
+                                 "computed root (internal byte order) is compared, reversed, with the header's merkle root" % [verdicts[k] for k in ("equal", "not reversed", "other")],
+                           fn, mod, key="verdict"))
+    else:
+        out.append(ctx.ok(spec, "verdict = (computed root, reversed to display order) == header merkle root", fn, mod, key="verdict"))
+    if seen.get("pop") == want_pop:
+        out.append(ctx.ok(spec, "the tree is rebuilt from the message's total, flag bits and hashes", fn, mod, key="inputs"))
+    else:
+        got = seen.get("pop")
+        what = "never populated" if got is None else ("total %r" % (got[2],) if got[2] != 3 else ("flag bits %s" % got[0] if got[0] != want_pop[0] else "hashes not reversed / not all handed on"))
+        out.append(ctx.bad(spec, "the tree is not rebuilt from (total, flag bits LSB first, reversed hashes): %s" % what, fn, mod, key="inputs"))
+    # -- Block.validate_merkle_root
+    spec2 = "block:Block.validate_merkle_root"
+    mod2, fn2 = rl.get(ctx, spec2)
+    got_args = {}
+
+    def opaque(name, args, kw):
+        if name == "merkle_root":
+            got_args["hashes"] = list(args[0])
+            return ROOT
+        if name == "hash256":
+            got_args["hashed"] = args[0]
+            return ROOT
+        return NotImplemented
+    v2 = {}
+    for label, hdr_root in (("equal", ROOT[::-1]), ("not reversed", ROOT), ("other", bytes(32))):
+        ctx.count("cells")
+        me = Obj("block", "Block", {"merkle_root": hdr_root, "tx_hashes": [h1, h2], "txs": None})
+        try:
+            v2[label] = Evaluator(ctx.repo, opaque=opaque).call(spec2, [], self_obj=me)
+        except Raised as x:
+            v2[label] = "raises %s" % x.name
+    if v2 == {"equal": True, "not reversed": False, "other": False} and got_args.get("hashes") == [h1[::-1], h2[::-1]]:
+        out.append(ctx.ok(spec2, "verdict = merkle_root(tx hashes) == header merkle root", fn2, mod2, key="block-verdict"))
+    else:
+        out.append(ctx.bad(spec2, "verdicts %s (expected true only for a header root equal to the reversed computed root), merkle_root() given %s" % (
+            [v2[k] for k in ("equal", "not reversed", "other")], "the reversed tx hashes" if got_args.get("hashes") == [h1[::-1], h2[::-1]] else "something other than the reversed tx hashes"),
+            fn2, mod2, key="block-verdict"))
+    return out
+
+
 def c17_4(ctx):
+    from sa.cells import Undecided
+    try:
+        return _verdict_cells(ctx)
+    except Undecided:
+        return _c17_4_text(ctx)
+
+
+def _c17_4_text(ctx):
     spec = "merkleblock:MerkleBlock.is_valid"
     mod, fn = rl.get(ctx, spec)
     cfg = cfg_of(fn)
@@ -144,7 +246,7 @@ def c17_4(ctx):
         if isinstance(v, ast.Compare) and isinstance(v.ops[0], ast.Eq) and {ast.unparse(v.left), ast.unparse(v.comparators[0])} == {"self.merkle_tree.root()[::-1]", "self.header.merkle_root"}:
             out.append(ctx.ok(spec, "verdict = (computed root, reversed to display order) == header merkle root", v, mod, key="verdict"))
         else:
-            out.append(ctx.bad(spec, "verdict is `%s`, not the comparison of the computed root with the header's merkle root" % (ast.unparse(v) if v is not None else None), n.ast or fn, mod, key="verdict"))
+            out.append(ctx.err(spec, "verdict `%s` not recognised as the comparison of the computed root with the header's merkle root" % (ast.unparse(v) if v is not None else None), n.ast or fn, mod))
     src = ast.unparse(fn)
     rev = "[h[::-1] for h in self.hashes]" in src or ("for h in self.hashes" in src and "hashes.append(h[::-1])" in src)
     if "MerkleTree(self.total)" in src and "populate_tree(flag_bits, hashes)" in src and "bytes_to_bit_field(self.flags)" in src and rev:
@@ -157,11 +259,35 @@ def c17_4(ctx):
     if rets and isinstance(rets[0], ast.Compare) and isinstance(rets[0].ops[0], ast.Eq) and "self.merkle_root" in ast.unparse(rets[0]) and "merkle_root(hashes)" in ast.unparse(fn2):
         out.append(ctx.ok("block:Block.validate_merkle_root", "verdict = merkle_root(tx hashes) == header merkle root", fn2, mod2, key="block-verdict"))
     else:
-        out.append(ctx.bad("block:Block.validate_merkle_root", "verdict is not the comparison with the header merkle root", fn2, mod2, key="block-verdict"))
+        out.append(ctx.err("block:Block.validate_merkle_root", "verdict not recognised as the comparison with the header merkle root", fn2, mod2))
     return out
 
 
 MERKLEBLOCK = [("nested", "header", ""), ("int", 4, "LE", "total"), ("count", "hashes"), ("repeat", "hashes", [("bytes", 32, "rev", "<elem>")]), ("varint", None), ("bytes", None, "", "flags")]
+
+
+def _block_hash_cells(ctx, hf, hm, shown):
+    """Block.hash evaluated with serialize() and hash256 as stand-ins (the digest has 32 different bytes)"""
+    from sa.cells import Evaluator, Obj, Raised, Undecided
+    D = bytes(range(100, 132))
+    given = {}
+
+    def opaque(name, args, kw):
+        if name == "hash256":
+            given["x"] = args[0]
+            return D
+        return NotImplemented
+    try:
+        r = Evaluator(ctx.repo, opaque=opaque, method_hooks={("Block", "serialize"): lambda o: b"HEADER80"}).call("block:Block.hash", [], self_obj=Obj("block", "Block", {}))
+    except Undecided as u:
+        return ctx.err("block:Block.hash", "block hash `%s` not evaluable: %s" % (shown, u), hf, hm)
+    except Raised as x:
+        return ctx.bad("block:Block.hash", "Block.hash raises %s" % x.name, hf, hm, key="hash")
+    if r == D[::-1] and given.get("x") == b"HEADER80":
+        return ctx.ok("block:Block.hash", "hash256(serialize())[::-1]", hf, hm, key="hash")
+    return ctx.bad("block:Block.hash", "block hash is %s of %s, expected hash256 of the 80-byte serialisation, reversed" % (
+        "the digest as is" if r == D else ("the reversed digest" if r == D[::-1] else "something else than the digest"),
+        "the serialisation" if given.get("x") == b"HEADER80" else "something else than the serialisation"), hf, hm, key="hash")
 
 
 def c17_5(ctx):
@@ -186,8 +312,10 @@ def c17_5(ctx):
     hm, hf = rl.get(ctx, "block:Block.hash")
     cfg = cfg_of(hf)
     r = [ast.unparse(expand(hf, n.id, n.ast.value)) for n in cfg.returns()]
-    out.append(ctx.ok("block:Block.hash", "hash256(serialize())[::-1]", hf, hm, key="hash") if r == ["hash256(self.serialize())[::-1]"] else
-               ctx.bad("block:Block.hash", "block hash is %s" % r, hf, hm, key="hash"))
+    if r == ["hash256(self.serialize())[::-1]"]:
+        out.append(ctx.ok("block:Block.hash", "hash256(serialize())[::-1]", hf, hm, key="hash"))
+    else:
+        out.append(_block_hash_cells(ctx, hf, hm, r))
     # merkleblock
     mspec = "merkleblock:MerkleBlock.parse"
     mm, mf = rl.get(ctx, mspec)
